@@ -79,7 +79,7 @@ theorem sabaStepOps_unsafe' (c : SabaConfig) (g : Flags) (hg : g.allocated = tru
       ([.sabaInit (c.type ≥ 0x100), .init] ++ (if g.recalc then [Prim.fromInertial] else []) ++
         sabaDrift c g.isSync ++ sabaTail c ++ [.advT (.frac 1 1)],
        { isSync := false, recalc := false, allocated := true }) := by
-  have := sabaStepOps_unsafe (c.mode false false) rfl g hg
+  have := sabaStepOps_unsafe (c.mode false false) rfl g hg hr
   have e : (g.isSync || g.recalc && (c.mode false false).p1fix) = g.isSync := by
     cases hi : g.isSync
     · simp [hr hi]
